@@ -65,12 +65,12 @@ func init() {
 		seen := map[string]bool{}
 		var all []scn
 		for _, k := range c06Known {
-			all = append(all, scn{k[0], strings.Split(k[1], ";")})
+			all = append(all, scn{role: k[0], steps: strings.Split(k[1], ";")})
 		}
 		all = append(all, sweepScenarios([]string{"outSender", "inReceiver"})...)
 		for i := 0; i < n; i++ {
 			role := []string{"outSender", "inReceiver"}[r.intn(2)]
-			all = append(all, scn{role, genScenario(r, role, r.intn(3) > 0)})
+			all = append(all, scn{role: role, steps: genScenario(r, role, r.intn(3) > 0)})
 		}
 		runMany(defaultCfg(), all, func(x scnResult) {
 			res.Evaluations++
